@@ -174,6 +174,9 @@ pub fn mbutton_of(b: i64) -> MouseButton {
         0 => MouseButton::Left,
         1 => MouseButton::Right,
         2 => MouseButton::Middle,
+        3 => MouseButton::Back,
+        4 => MouseButton::Forward,
+        5 => MouseButton::Other(7),
         o => panic!("bad mouse button {o}"),
     }
 }
@@ -346,6 +349,18 @@ pub fn world_op(world: &mut World, op: &Sx) {
             }
             let id = world.spawn_empty().id();
             world.resource_mut::<Slots>().ents.insert(slot, id);
+            // entity hierarchy: slot s >= 10 is a child of slot s - 10 (whichever of the two is spawned later attaches
+            // them, if the other is alive).  Nothing in the crate looks at the hierarchy: events must not travel along it.
+            let other = if slot >= 10 { slot - 10 } else { slot + 10 };
+            if let Some(&o) = world.resource::<Slots>().ents.get(&other) {
+                if world.get_entity(o).is_ok() {
+                    if slot >= 10 {
+                        world.entity_mut(id).set_parent(o);
+                    } else {
+                        world.entity_mut(o).set_parent(id);
+                    }
+                }
+            }
             for c in a[1].list() {
                 with_ctx!(c.int(), C => { world.entity_mut(id).insert(C {}); });
             }
